@@ -6,7 +6,7 @@
    the shared reference parser; objects with duplicate keys are outside the domain in which the
    model is tied to the code (see props/C02.json). *)
 From Verif Require Import Lib.Bytes Json.Ast Json.Parse Json.Print
-     Sign.Base64 Sign.Base64Facts Sign.Model Sign.Proofs Sign.Instance Sign.IdealInstance.
+     Sign.Base64 Sign.Base64Facts Sign.Model Sign.Proofs Sign.Normal Sign.Instance Sign.IdealInstance.
 Open Scope N_scope.
 
 Section C02.
@@ -21,6 +21,34 @@ Section C02.
   Theorem sign_then_verify : forall name kid k m o,
     sign_value name kid k (JObj m) = Some o -> verify_value name kid (pub k) o = true.
   Proof. intros. eapply sign_then_verify_value; eauto. Qed.
+
+  (* ... however the signed object is re-serialised: any text t' whose value is equivalent to
+     the signed object (same members in any order, integers spelled differently; white space and
+     escape spellings are gone after parsing) gets the verdict of the signed object - for every
+     name, key ID and key.  jequiv / normalise are C01's definitions; the one fact used about the
+     canonical printer, canon_print (normalise v) = canon_print v, is C01's lemma and enters as
+     the premise canon_norm. *)
+  Section Reserialisation.
+    Hypothesis canon_norm : forall v, canon_print (normalise v) = canon_print v.
+
+    Theorem verdict_invariant_under_reserialisation : forall name kid p o t' v',
+      parse_json t' = Some v' -> jequiv v' o ->
+      verify_json verify sig_size_ok pk_size_ok name kid p t' = verify_value name kid p o.
+    Proof.
+      intros name kid p o t' v' P E. unfold verify_json. rewrite P.
+      apply (verify_respects_jequiv canon_norm). exact E.
+    Qed.
+
+    Theorem sign_then_verify_reserialised : forall name kid k m o t' v',
+      sign_value name kid k (JObj m) = Some o ->
+      parse_json t' = Some v' -> jequiv v' o ->
+      verify_json verify sig_size_ok pk_size_ok name kid (pub k) t' = true.
+    Proof.
+      intros name kid k m o t' v' S P E.
+      rewrite (verdict_invariant_under_reserialisation name kid (pub k) o t' v' P E).
+      eapply sign_then_verify_value; eauto.
+    Qed.
+  End Reserialisation.
 
   (* SignJSON refuses an object only when its signatures member is not a signature map *)
   Theorem sign_succeeds_iff_signatures_readable : forall name kid k m,
@@ -152,6 +180,26 @@ Section C02.
     Qed.
   End Tamper.
 
+  (* ... spelled out for single members, with C01's equivalence: if some member other than
+     signatures / unsigned is bound to an inequivalent value (value change, nested edit), or is
+     present on one side only (insertion, deletion), the old signature is refused *)
+  Section TamperMembers.
+    Variable json_wf : json -> Prop.
+    Hypothesis canon_inj : forall v v', json_wf v -> json_wf v' -> canon_print v = canon_print v' -> jequiv v v'.
+
+    Theorem verify_sound_member_change : forall name kid k m o m' p mkey,
+      sign_value name kid k (JObj m) = Some o ->
+      sig_at name kid (JObj m') = sig_at name kid o ->
+      json_wf (strip (JObj m')) -> json_wf (strip (JObj m)) ->
+      is_meta mkey = false -> member_differs mkey m' m ->
+      verify_value name kid p (JObj m') = false.
+    Proof.
+      intros name kid k m o m' p mkey S A W W' M D.
+      apply (verify_sound_tamper jequiv json_wf canon_inj name kid k m o (JObj m') p S A W W').
+      apply (member_differs_not_jequiv mkey); assumption.
+    Qed.
+  End TamperMembers.
+
   (* ListKeyIDs returns exactly the member names of signatures.<name>, and every key ID under
      which VerifyJSON can accept is among them *)
   Theorem list_key_ids_spec : forall name m,
@@ -220,7 +268,19 @@ Example concrete_reserialised_and_tampered :
   end.
 Proof. vm_compute. repeat split; reflexivity. Qed.
 
+(* equivalence is not trivial: member order and integer spelling are ignored, values are not *)
+Example jequiv_concrete :
+  match parse_json (bs "{""a"":1,""b"":[-0,{""y"":2,""x"":3}]}"),
+        parse_json (bs " { ""b"" : [0, {""x"":3, ""y"":2}], ""a"":1 }"),
+        parse_json (bs "{""a"":1,""b"":[0,{""y"":3,""x"":2}]}") with
+  | Some v1, Some v2, Some v3 => jequiv v1 v2 /\ ~ jequiv v1 v3
+  | _, _, _ => False
+  end.
+Proof. vm_compute. split; [reflexivity|discriminate]. Qed.
+
 Print Assumptions sign_then_verify.
+Print Assumptions verdict_invariant_under_reserialisation.
+Print Assumptions sign_then_verify_reserialised.
 Print Assumptions sign_succeeds_iff_signatures_readable.
 Print Assumptions sign_then_verify_after_more_signers.
 Print Assumptions sign_then_verify_after_unsigned_change.
@@ -229,5 +289,6 @@ Print Assumptions verify_sound_wrong_identity.
 Print Assumptions verify_accepts_only_genuine_signatures.
 Print Assumptions verify_sound_tamper_canonical.
 Print Assumptions verify_sound_tamper.
+Print Assumptions verify_sound_member_change.
 Print Assumptions list_key_ids_spec.
 Print Assumptions ideal_sig_inhabited.
